@@ -2629,6 +2629,23 @@ impl<Front: SocketHandler> ConnectionH2<Front> {
                 };
                 if let H2StreamId::Zero = stream_id {
                     if header.frame_type == FrameType::Headers {
+                        // The padding of a HEADERS frame follows its field block
+                        // fragment and is not part of the field block (RFC 9113
+                        // §6.2). When the block continues, the CONTINUATION
+                        // payloads are appended to this buffer and the fragment
+                        // length simply grows: drop the padding now, or it ends
+                        // up in the middle of the assembled block and a legal
+                        // request dies with COMPRESSION_ERROR.
+                        if let Frame::Headers(headers) = &frame {
+                            if !headers.end_headers {
+                                let fragment_end = kawa.storage.head
+                                    + headers.header_block_fragment.start as usize
+                                    + headers.header_block_fragment.len as usize;
+                                if fragment_end < kawa.storage.end {
+                                    kawa.storage.end = fragment_end;
+                                }
+                            }
+                        }
                         kawa.storage.head = kawa.storage.end;
                     } else {
                         kawa.storage.end = kawa.storage.head;
